@@ -184,6 +184,29 @@ extern int total_queries;
 } while (0)
 
 /*
+ * Unlinks the specified entry from the specified uthash hash after a
+ * HASH_ADD_KEYPTR() of that entry has ended in uthash_fatal(), so that the
+ * entry can be released without the hash still referring to it.
+ *
+ * uthash reports an allocation failure only after it has modified the hash:
+ * when it cannot allocate the table for a hash's first entry, that entry is
+ * already the head (with a NULL table pointer, so that no other hash macro may
+ * be applied to it), and when it cannot enlarge the bucket array, the entry is
+ * already a full member of the hash.
+ *
+ * hh: the name of the hash handle member
+ * head: the head pointer of the hash; must be an lvalue
+ * entry: a pointer to the entry whose addition failed
+ */
+#define HASH_ADD_UNDO(hh, head, entry) do { \
+    if ((entry)->hh.tbl == NULL) { \
+        head = NULL; \
+    } else { \
+        HASH_DELETE(hh, head, entry); \
+    } \
+} while (0)
+
+/*
  * Records the specified pointer value at the specified location, or calls the
  * specified function to clean it up if the location is NULL
  *
